@@ -32,6 +32,26 @@ def sv(name):
     return [d for n_, d in std_vectors(name)]
 
 
+def zero_limb_scalars(rng):
+    """ephemeral scalars with all-zero interior / top 64-bit limbs (low limb non-zero, as the sampler requires)"""
+    l = lambda: rng.randrange(1, 1 << 64)
+    top = lambda: rng.randrange(1, N >> 193)
+    vals = [(top() << 192) | (l() << 128) | l(), (top() << 192) | (l() << 64) | l(), (top() << 192) | l(),
+            (l() << 128) | l(), (l() << 64) | l(), l(), 1, 2, (1 << 64) + 1, (1 << 128) + 1, (1 << 192) + 1]
+    return [H(v) for v in vals]
+
+
+def crafted_masters(rng, idb, hid, tier='quick'):
+    """master keys aimed at the exceptional branches of extraction / of Q = [H1]P + Ppub (H1 computed by the
+    independent Python SM3): (name, k, extraction_defined)"""
+    h1 = S.H1(idb, hid)
+    out = [('k=H1 (Q is a doubling)', h1, True), ('k=H1+1', (h1 + 1) % N, True), ('k=H1-1', (h1 - 1) % N, True),
+           ('k=N-H1 (t1=0)', (N - h1) % N, False), ('k=N-H1+1 (t1=1)', (N - h1 + 1) % N, True), ('k=N-H1-1 (t1=N-1)', (N - h1 - 1) % N, True),
+           ('k=2^128', 1 << 128, True), ('k=2^192', 1 << 192, True), ('k=c*2^128', (rng.randrange(1, 1 << 60) << 128), True),
+           ('k=2^64', 1 << 64, True), ('k=c*2^64 (zero low limb)', rng.randrange(1, 1 << 190) << 64, True)]
+    return [(n_, k, ok) for n_, k, ok in out if 1 <= k <= N - 1]
+
+
 # ----------------------------------------------------------------------------- C16
 def gen_c16(tier, rng):
     qmax = ((1 << 320) - 1) // (N - 1)
@@ -72,6 +92,10 @@ def gen_c16(tier, rng):
     for kind in ('sign', 'enc', 'exch'):
         for idb in (b'Alice', b'', rb(rng, 17)):
             yield ('extract-H1+k=0', 's9_extract_none %s %s' % (kind, hx(idb)), None)
+    for kind, hid in (('sign', 1), ('enc', 3), ('exch', 2)):
+        for idb in ((b'Alice', b'', rb(rng, 17)) if tier == 'thorough' else (b'Alice', rb(rng, 9))):
+            for name, k, ok in crafted_masters(rng, idb, hid):
+                yield ('extract-crafted-master ' + name.split(' ')[0], 's9_extract %s %s %s' % (kind, H(k), hx(idb) or '-'), None if ok else 'ERR')
 
 
 # ----------------------------------------------------------------------------- C13
@@ -140,6 +164,7 @@ def gen_c13(tier, rng):
     tv12 = tower_vals(rng, 12, tier)
     for a in tv12[:6]:
         yield ('s9fp12-pow', 's9fp12 pow %s %s' % (a, H(rng.randrange(N))), None)
+        yield ('s9fp12-pow-zero-limb-exponent', 's9fp12 pow %s %s' % (a, rng.choice(zero_limb_scalars(rng))), None)
         yield ('s9fp12-bytes', 's9fp12_bytes %s' % a, None)
         lw = ';'.join(rng.choice(tower_vals(rng, 2, 'quick')) for _ in range(3))
         yield ('s9fp12-line_mul', 's9fp12 line_mul %s %s' % (a, lw), None)
@@ -210,6 +235,10 @@ def gen_c13(tier, rng):
         yield ('g2-eq-same', 'g2eq %s %s' % (S.g2_jac(A, z1), S.g2_jac(A, z2)), None)
         # D6 (open finding): point_equals(P, -P)
         yield ('g2-eq-negated', 'g2eq %s %s negate' % (S.g2_jac(A, z1), S.g2_jac(A, z2)), None)
+        # D6, second form: distinct points sharing y: (x, y) and (w x, y) with w a primitive cube root of unity in Fp
+        w_ = pow(2, (P - 1) // 3, P)
+        yield ('g2-eq-shared-y', 'g2eq %s %s sharey' % (S.g2_jac(A, z1), S.g2_jac((S.f2scal(w_, A[0]), A[1]), z2)), None)
+        yield ('g2-eq-shared-nothing', 'g2eq %s %s' % (S.g2_jac(A, z1), S.g2_jac((S.f2scal(w_, A[0]), S.f2neg(A[1])), z2)), None)
         yield ('g2-raw', 'g2_raw add %s %s' % (S.g2_jac(A, z1), S.g2_jac(B, z2)), None)
     for k in [0, 1, 2, 3, N - 1, N, N + 1, rng.getrandbits(256)]:
         yield ('g2-gmul', 'g2 gmul %s' % H(k), None)
@@ -226,11 +255,31 @@ def gen_c12(tier, rng):
         z1 = rng.choice([1, rng.randrange(1, P)])
         z2 = rng.choice([(1, 0), (rng.randrange(1, P), rng.randrange(P))])
         yield ('pairing-multiples' + ('-Z!=1' if z1 != 1 or z2 != (1, 0) else ''), 'pairing %s %s' % (S.g2_jac(B, z2), S.g1_jac(A, z1)), None)
+    # Jacobian Z of Q in special positions of Fp2: purely "imaginary" c*u, real, and both components set
+    B = S.g2_mul(rs(rng), S.P2)
+    A = S.g1_mul(rs(rng), S.P1)
+    for zq in ((0, 1), (0, rng.randrange(1, P)), (rng.randrange(1, P), 0), (P - 1, 0), (0, P - 1)):
+        yield ('pairing-Q-Z-special', 'pairing %s %s' % (S.g2_jac(B, zq), S.g1_jac(A, 1)), None)
+    # calls one after another on one thread: the value depends on the two points only, not on what was evaluated before
+    z = (rng.randrange(1, P), rng.randrange(1, P))
+    q1 = S.g2_jac(B, z)
+    q1neg = S.g2_jac(S.g2_neg(B), S.f2neg(z))           # same stored X, Y as q1, Z negated: the point -B
+    q1w = S.g2_jac(B, S.f2neg(z))                        # (X, -Y', ..): B again in another representation
+    p1 = S.g1_jac(A, rng.randrange(1, P))
+    p1b = S.g1_jac(A, 1)
+    yield ('pairing-history', 'seq pairing %s %s ; %s %s ; %s %s ; %s %s ; %s %s' % (q1, p1, q1neg, p1, q1, p1b, q1w, p1b, q1, p1), None)
+    yield ('pairing-history', 'seq pairing %s %s ; %s %s ; %s %s' % (S.g2_jac(S.P2, (1, 0)), S.g1_jac(S.P1, 1), S.g2_jac(S.g2_neg(S.P2), (P - 1, 0)), S.g1_jac(S.P1, 1),
+           S.g2_jac(S.P2, (1, 0)), S.g1_jac(S.g1_neg(S.P1), P - 1)), None)
     yield ('pairing-generators', 'pairing %s %s' % (S.g2_jac(S.P2, (1, 0)), S.g1_jac(S.P1, 1)), None)
     yield ('pairing-Q-infinity', 'pairing %s %s' % (S.g2_jac(None, (1, 0)), S.g1_jac(S.P1, 1)), None)
     yield ('pairing-P-infinity', 'pairing %s %s' % (S.g2_jac(S.P2, (1, 0)), S.g1_jac(None, 1)), None)
     yield ('pairing-raw', 'pairing_raw %s %s' % (S.g2_jac(S.P2, (1, 0)), S.g1_jac(S.P1, 1)), None)
     # the Annex value e(P1, Ppub-s) enters through the signature example (C09); bilinearity / order / non-degeneracy inside the library
+    # a*b mod N with all-zero 64-bit limbs: e(P1,P2)^(ab) goes through Fp12::pow with that exponent
+    for t_ in zero_limb_scalars(rng)[: 11 if tier == 'thorough' else 5]:
+        a_ = rs(rng)
+        b_ = int(t_, 16) * pow(a_, -1, N) % N
+        yield ('bilinearity-exponent-with-zero-limbs', 's9_bilin %s %s' % (H(a_), H(b_)), 'OK bilinear=true order=true nondegenerate=true')
     for _ in range(12 if tier == 'thorough' else 3):
         yield ('bilinearity-in-library', 's9_bilin %s %s' % (H(rng.choice([rs(rng), rng.getrandbits(256), 1, N - 1])), H(rs(rng))), 'OK bilinear=true order=true nondegenerate=true')
 
@@ -262,6 +311,17 @@ def gen_c09(tier, rng):
         yield ('S-off-curve', base + ' s %s' % S.g1_bytes((Q[0], (Q[1] + 1) % P)), None)
         yield ('S-coords>=p', base + ' s 04%s%s' % (H(P), H(P + 1)), None)
         yield ('S-zero', base + ' s 04%s%s' % (H(0), H(0)), None)
+    # ephemeral scalars with zero limbs (w = g^r through Fp12::pow, S = [l]ds through the 5-bit window)
+    ks = rs(rng)
+    for r_ in zero_limb_scalars(rng):
+        yield ('r-with-zero-limbs', 's9_sign %s %s %s %s' % (H(ks), hx(b'Alice'), hx(rb(rng, 12)), r_), None)
+        yield ('r-with-zero-limbs-sv', 's9_sv %s %s %s %s' % (H(ks), hx(b'Alice'), hx(rb(rng, 12)), r_), None)
+    # master keys related to the signer's identity: P = [h1]P2 + Ppub-s hits the doubling branch; zero limbs in t2 = ks/t1
+    for idb in (b'Alice', rb(rng, 11)):
+        for name, k, ok in crafted_masters(rng, idb, 1):
+            if ok:
+                yield ('crafted-master ' + name.split(' ')[0], 's9_sv %s %s %s %s' % (H(k), hx(idb), hx(b'message'), good_r(rng)), None)
+                yield ('crafted-master-sign ' + name.split(' ')[0], 's9_sign %s %s %s %s' % (H(k), hx(idb), hx(b'message'), good_r(rng)), None)
     # retry branch l = 0 cannot be constructed without a hash preimage: documented as not constructible
     yield ('out-of-range-candidates', 's9_sign %s %s %s %s' % (H(rs(rng)), hx(b'Alice'), hx(b'm'), ','.join(['00' * 32, H(N), 'ff' * 32, good_r(rng)])), None)
 
@@ -273,11 +333,11 @@ def gen_c10(tier, rng):
         yield ('std-vector-decrypt', 's9_dec %s %s %s %s' % (d['ke'], d['id'], d['id'], d['ct']), 'OK ' + d['msg'])
     ke = rs(rng)
     idb = hx(b'Bob')
-    lens = range(1, 256) if tier == 'thorough' else [1, 2, 31, 32, 33, 64, 223, 224, 254, 255]
+    lens = range(0, 256) if tier == 'thorough' else [0, 1, 2, 31, 32, 33, 64, 223, 224, 254, 255]
     for ln in lens:
         msg = rb(rng, ln)
-        yield ('enc-len', 's9_enc %s %s %s %s' % (H(ke), idb, hx(msg), good_r(rng)), None)
-        yield ('round-trip', 's9_tamper %s %s %s %s none 0' % (H(ke), idb, hx(msg), good_r(rng)), 'OK ' + hx(msg))
+        yield ('enc-len', 's9_enc %s %s %s %s' % (H(ke), idb, hx(msg) or '-', good_r(rng)), None)
+        yield ('round-trip', 's9_tamper %s %s %s %s none 0' % (H(ke), idb, hx(msg) or '-', good_r(rng)), 'OK ' + hx(msg) if ln else None)
     for i in range(3 if tier == 'thorough' else 1):
         ke = rs(rng)
         idb = rng.choice(ids(rng))
@@ -296,6 +356,34 @@ def gen_c10(tier, rng):
         yield ('c1-off-curve', base + ' c1 04%s%s' % (H(rng.randrange(P)), H(rng.randrange(P))), None)
         yield ('c1-coords>=p', base + ' c1 04%s%s' % (H(Q[0] + P) if Q[0] + P < (1 << 256) else H(P), H(Q[1])), None)
         yield ('different-identity', base + ' id 0', None)
+    # C1 re-encoded with a coordinate replaced by coordinate + p (same point after reduction, different octets): C1 computed
+    # independently as [r(H1(ID||03) + ke)]P1
+    for idb_ in (b'Bob', rb(rng, 6)):
+        ke_ = rs(rng)
+        t_ = (S.H1(idb_, 3) + ke_) % N
+        done = set()
+        for _ in range(60):
+            r_ = int(good_r(rng), 16)
+            C1 = S.g1_mul(r_ * t_ % N, S.P1)
+            for which in (0, 1):
+                if C1[which] + P < (1 << 256) and which not in done:
+                    done.add(which)
+                    enc_ = [C1[0], C1[1]]
+                    enc_[which] += P
+                    m_ = rb(rng, 7)
+                    yield ('c1-coordinate+p-same-point', 's9_tamper %s %s %s %s c1 04%s%s' % (H(ke_), hx(idb_), hx(m_), H(r_), H(enc_[0]), H(enc_[1])), None)
+            if len(done) == 2:
+                break
+    for r_ in zero_limb_scalars(rng):
+        m_ = rb(rng, 9)
+        yield ('r-with-zero-limbs', 's9_enc %s %s %s %s' % (H(ke), hx(b'Bob'), hx(m_), r_), None)
+        yield ('r-with-zero-limbs-rt', 's9_tamper %s %s %s %s none 0' % (H(ke), hx(b'Bob'), hx(m_), r_), 'OK ' + hx(m_))
+    for idb_ in (b'Bob', rb(rng, 11)):
+        for name, k, ok in crafted_masters(rng, idb_, 3):
+            if ok:
+                m_ = rb(rng, 9)
+                yield ('crafted-master ' + name.split(' ')[0], 's9_tamper %s %s %s %s none 0' % (H(k), hx(idb_), hx(m_), good_r(rng)), 'OK ' + hx(m_))
+                yield ('crafted-master-enc ' + name.split(' ')[0], 's9_enc %s %s %s %s' % (H(k), hx(idb_), hx(m_), good_r(rng)), None)
     # 1-byte messages: K1 = 0 with probability 2^-8 per r -> the retry branch (many candidates, some rejected)
     for _ in range(2 if tier == 'thorough' else 1):
         yield ('retry-K1-zero-search', 's9_enc %s %s 5a %s' % (H(ke), idb, ','.join(good_r(rng) for _ in range(40 if tier != 'thorough' else 300))), None)
@@ -313,6 +401,14 @@ def gen_c17(tier, rng):
     for t in ('ra', 'rb', 'ra,rb', 'ra-offcurve', 'rb-offcurve'):
         for _ in range(3 if tier == 'thorough' else 1):
             yield ('tamper-' + t, 's9_exch %s %s %s 16 %s %s %s' % (H(rs(rng)), hx(rb(rng, 5)), hx(rb(rng, 7)), good_r(rng), good_r(rng), t), None)
+    # master keys related to one party's identity (Q = [H1]P1 + Ppub-e hits the doubling branch; zero limbs in t2 = ke/t1)
+    for who, idx in ((b'Alice', 0), (b'Bob', 1)):
+        for name, k, ok in crafted_masters(rng, who, 2):
+            if ok:
+                yield ('crafted-master ' + name.split(' ')[0], 's9_exch %s %s %s 16 %s %s -' % (H(k), hx(b'Alice'), hx(b'Bob'), good_r(rng), good_r(rng)), None)
+    zs = zero_limb_scalars(rng)
+    for i, r_ in enumerate(zs):
+        yield ('r-with-zero-limbs', 's9_exch %s %s %s 16 %s %s -' % (H(rs(rng)), hx(b'Alice'), hx(b'Bob'), r_, zs[(i + 3) % len(zs)]), None)
     # klen = 1: the responder's retry branch (key byte 0, probability 2^-8): many honest runs
     for _ in range(300 if tier == 'thorough' else 12):
         yield ('klen=1-retry-search', 's9_exch %s %s %s 1 %s %s -' % (H(rs(rng)), hx(b'A'), hx(b'B'), good_r(rng), ','.join(good_r(rng) for _ in range(3))), None)
@@ -355,6 +451,10 @@ def gen_c20_sm9(tier, rng):
                 yield ('sm9-hash-to-range-len', 'n_from_hash %s' % hx(data), None)
             if ln <= 80:
                 yield ('sm9-kdf-len', 's9_kdf %s %d' % (hx(data), ln), None)
+    # degenerate lengths of the encryption entry points (an empty message must return, not spin in the K1 = 0 retry)
+    for m_ in ('-', '00', 'ff' * 255):
+        yield ('sm9-encrypt-degenerate-len', 's9_enc %s %s %s %s' % (H(ke), idb, m_, good_r(rng)), None)
+    yield ('sm9-encrypt-degenerate-len', 's9_tamper %s %s - %s none 0' % (H(ke), idb, good_r(rng)), None)
     for hv in (0, 1, N - 2, N - 1, N, N + 1, (1 << 256) - 1):
         yield ('sm9-verify-h-boundary', 's9_verify %s %s %s %s %s' % (H(ke), hx(b'Alice'), hx(b'msg'), H(hv), S.g1_bytes(S.P1)), None)
     for s_ in ('04' + H(0) + H(0), '04' + 'ff' * 64, '00' * 65, S.g1_bytes((S.P1[0], S.P1[1] ^ 1))):
